@@ -37,6 +37,8 @@ pub struct Invocation {
     pub profile: &'static str, // "debug" | "release"
     pub patterns: Vec<Vec<u8>>,
     pub via_file: bool,
+    /// the first pattern goes into the -f file, the others into -p (both options on one command line)
+    pub split: bool,
     pub line_number: bool,
     pub no_filename: bool,
     pub color: bool,
@@ -50,7 +52,7 @@ impl Invocation {
         json!({
             "profile": self.profile,
             "patterns": self.patterns.iter().map(|p| hex(p)).collect::<Vec<_>>(),
-            "via_file": self.via_file, "line_number": self.line_number, "no_filename": self.no_filename,
+            "via_file": self.via_file, "split": self.split, "line_number": self.line_number, "no_filename": self.no_filename,
             "color": self.color, "delivery": self.delivery.name(),
             "input": hex(&self.input), "input2": hex(&self.input2),
         })
@@ -60,6 +62,7 @@ impl Invocation {
             profile: if v["profile"].as_str() == Some("release") { "release" } else { "debug" },
             patterns: v["patterns"].as_array().unwrap().iter().map(|p| util::unhex(p.as_str().unwrap())).collect(),
             via_file: v["via_file"].as_bool().unwrap_or(false),
+            split: v["split"].as_bool().unwrap_or(false),
             line_number: v["line_number"].as_bool().unwrap_or(false),
             no_filename: v["no_filename"].as_bool().unwrap_or(false),
             color: v["color"].as_bool().unwrap_or(false),
@@ -93,7 +96,17 @@ pub fn run(inv: &Invocation) -> RunResult {
     let dir = workdir();
     let mut cmd = Command::new(binary(inv.profile));
     cmd.current_dir(&dir);
-    if inv.via_file {
+    if inv.split && inv.patterns.len() >= 2 {
+        let mut body = inv.patterns[0].clone();
+        body.push(b'\n');
+        std::fs::write(dir.join("pats.txt"), body).unwrap();
+        let joined: Vec<u8> = inv.patterns[1..].join(&b'\n');
+        if inv.via_file {
+            cmd.arg("-f").arg("pats.txt").arg("-p").arg(String::from_utf8(joined).unwrap());
+        } else {
+            cmd.arg("-p").arg(String::from_utf8(joined).unwrap()).arg("-f").arg("pats.txt");
+        }
+    } else if inv.via_file {
         let mut body = Vec::new();
         for p in &inv.patterns {
             body.extend_from_slice(p);
@@ -352,10 +365,10 @@ pub fn judge(inv: &Invocation, known_cr: &Option<String>, acc: &mut Acc) {
                 "C16",
                 "cli",
                 format!(
-                    "daacfind ({}) patterns {:?} flags[n={} h={} color={} via_file={}] {}: {strict}",
+                    "daacfind ({}) patterns {:?} flags[n={} h={} color={} via_file={} split_f_p={}] {}: {strict}",
                     inv.profile,
                     inv.patterns.iter().map(|p| String::from_utf8_lossy(p).to_string()).collect::<Vec<_>>(),
-                    inv.line_number, inv.no_filename, inv.color, inv.via_file, inv.delivery.name()
+                    inv.line_number, inv.no_filename, inv.color, inv.via_file, inv.split, inv.delivery.name()
                 ),
                 c,
             );
@@ -475,6 +488,7 @@ pub fn c16(tier: &str, acc: &mut Acc, bounds: &mut Vec<String>) {
                             profile,
                             patterns: pl.clone(),
                             via_file,
+                            split: pl.len() >= 2 && (li + flags as usize) % 2 == 0,
                             line_number: flags & 1 != 0,
                             no_filename: flags & 2 != 0,
                             color: flags & 4 != 0,
@@ -487,6 +501,7 @@ pub fn c16(tier: &str, acc: &mut Acc, bounds: &mut Vec<String>) {
                                 profile,
                                 patterns: pl.clone(),
                                 via_file,
+                                split: false,
                                 line_number: flags & 1 != 0,
                                 no_filename: flags & 2 != 0,
                                 color: flags & 4 != 0,
@@ -538,6 +553,7 @@ pub fn c16(tier: &str, acc: &mut Acc, bounds: &mut Vec<String>) {
                         profile,
                         patterns: pl.clone(),
                         via_file: flags == 5,
+                        split: pl.len() >= 2 && flags == 1,
                         line_number: flags & 1 != 0,
                         no_filename: flags & 2 != 0,
                         color: flags & 4 != 0,
@@ -557,6 +573,7 @@ pub fn c16(tier: &str, acc: &mut Acc, bounds: &mut Vec<String>) {
                     profile,
                     patterns: vec![b"ab".to_vec(), b"b".to_vec()],
                     via_file: false,
+                    split: true,
                     line_number: true,
                     no_filename: false,
                     color,
